@@ -465,7 +465,8 @@ func (ip *Interp) Store(st *State, p *Ptr, t types.Type, v Val) {
 		}
 	}
 	if ip.TraceStores {
-		ip.Stores = append(ip.Stores, StoreEvent{Key: k, Obj: p.Obj, Path: p.Path, V: v, Fn: ip.curFn(), Pos: ip.curPos, GuardL: ip.PathGuardList(st)})
+		ip.seq++
+		ip.Stores = append(ip.Stores, StoreEvent{Seq: ip.seq, Key: k, Obj: p.Obj, Path: p.Path, V: v, Fn: ip.curFn(), Pos: ip.curPos, GuardL: ip.PathGuardList(st)})
 	}
 }
 
